@@ -29,7 +29,7 @@ CHECK = dict(
           "enumerate seeds x steps^depth x 2. transitions = steps executed; states/distinct = byte-distinct exported results (IDs up to order-preserving "
           "renaming); non-trivial = results with at least two non-empty runs (triangles of >= 2 original instances to attribute)."),
     bounds=dict(
-        quick=("8 seeds (6 originals at identity, cubeTri and octa mirrored) x 104 steps (3 transforms, Refine(2), AsOriginal, {+,-,rsub,^} x 6 originals x "
+        quick=("9 seeds (7 originals at identity incl. a pyramid whose property seams end at its apex, cubeTri and octa mirrored) x 118 steps, every per-step forcing mask (2 / 4 / 8 at depth 0 / 1 / 2: 18 + 4,248 + 1,002,528 programs; the numbers that follow describe the step alphabet before the pyramid was added) ( (3 transforms, Refine(2), AsOriginal, {+,-,rsub,^} x 6 originals x "
                "{rigid, mirror, scale}, Split.first/second x 6 originals mirrored, + with 3 far operands, {+,-,^} x 2 coincident operands, 6 BatchBoolean) "
                "to depth 2: 16 + 1,664 + 173,056 programs. ASan run: 10 seeds x 69 steps to depth 1"),
         thorough=("18 seeds x 211 steps (5 transforms incl. negative scale, Refine(2), AsOriginal, 6 binary kinds x 6 originals x 5 placements, +/- far, "
